@@ -242,18 +242,22 @@ func checkC08(c *Ctx, r *Report) {
 	// ---- R4
 	for _, f := range c.FuncsNamed(proxyPkg + ".changeRequestToTarget") {
 		got := map[string]string{}
-		eachInstr(f, func(in ssa.Instruction) {
-			st, ok := in.(*ssa.Store)
-			if !ok {
-				return
-			}
-			fv, base, is := fieldOf(st.Addr)
-			if !is || structName(base.Type()) != "net/url.URL" {
-				return
-			}
-			_, p := fieldPath(st.Val)
-			got[fv.Name()] = strings.Join(p, ".")
-		})
+		for _, hc := range helperContexts(f, 2) {
+			eachInstr(hc.fn, func(in ssa.Instruction) {
+				st, ok := in.(*ssa.Store)
+				if !ok {
+					return
+				}
+				fv, base, is := fieldOf(st.Addr)
+				if !is || structName(base.Type()) != "net/url.URL" {
+					return
+				}
+				root, p := ctxFieldPath(st.Val, hc.ctx)
+				if root == ssa.Value(f.Params[0]) {
+					got[fv.Name()] = strings.Join(p, ".")
+				}
+			})
+		}
 		r.Check(got["Path"] == "URL.Path" && got["RawQuery"] == "URL.RawQuery", "C08.R4", "target URL carries path and query", c.Pos(f.Pos()), fmt.Sprintf("Path<-%s RawQuery<-%s", got["Path"], got["RawQuery"]), fmt.Sprintf("the outgoing URL does not take Path/RawQuery from the incoming one (Path<-%q RawQuery<-%q)", got["Path"], got["RawQuery"]))
 	}
 	nReqStores := 0
